@@ -536,6 +536,9 @@ class Chain(BaseChain):
         current_blob = self.current_blob
         # transdimensional proposals need to know which proposals are active
         if self.transdimensional:
+            # (on a copy: at the first step after a start or a clear the
+            # current position is the start position itself)
+            current_pos = current_pos.copy()
             current_pos.update({'_state': self._active_props})
         # create a proposal and test it
         proposal = self.proposal_dist.jump(current_pos)
